@@ -21,10 +21,27 @@ def _mentions(t, quantity):
     return False
 
 
+VERSION_LOCALS = {"ids": frozenset()}     # decl ids of locals that cache the bitstream version (per function)
+
+
+def version_locals(fn):
+    """locals initialised from a bitstream-version getter / field (`const uint16_t version = bitstream_version();`)"""
+    out = set()
+    for b, ev in fn.events():
+        if ev["k"] == "decl" and "d" in (ev.get("var") or {}) and isinstance(ev.get("e"), dict):
+            e = ev["e"]
+            while isinstance(e, dict) and e.get("k") in ("icast", "cast", "copy"):
+                e = e.get("e")
+            if isinstance(e, dict) and e.get("k") in ("call", "field") and _is_version(e):
+                out.add(ev["var"]["d"])
+    return frozenset(out)
+
+
 def _is_version(t):
     return any((n.get("k") == "call" and strip_targs(n.get("fn") or "").rsplit("::", 1)[-1]
                 in ("bitstream_version", "BitstreamVersion")) or
-               (n.get("k") == "field" and n.get("n") in ("bitstream_version_", "version_"))
+               (n.get("k") == "field" and n.get("n") in ("bitstream_version_", "version_")) or
+               (n.get("k") == "var" and n.get("d") is not None and n.get("d") in VERSION_LOCALS["ids"])
                for n in walk(t))
 
 
@@ -142,6 +159,7 @@ def selector_map(F, fn_base, quantity, cur_version, version_side):
     out = {}
     for fn in F.find(fn_base):
         dead = set()
+        VERSION_LOCALS["ids"] = version_locals(fn)
         if version_side:
             for b in fn.blocks.values():
                 if b.cond is None or len(b.succ) != 2 or _mentions(b.cond, quantity):
@@ -175,6 +193,23 @@ def selector_map(F, fn_base, quantity, cur_version, version_side):
                     continue
                 for tok in _tokens_deep(F, body, 0, set()):
                     sites.append((tok, n.get("b", blk.id)))
+        # a per-width shared loop helper called under the condition (`DecodeRawFaces<uint8_t>(n, ...)`)
+        for n, b, rk, ev in fn.calls():
+            if n.get("k") != "call" or token_of(n) is not None or b not in live or n.get("virt"):
+                continue
+            if not (n.get("fn") or "").startswith(("draco::", "(anonymous")) or \
+                    strip_targs(n.get("fn") or "").startswith(("draco::DecoderBuffer::", "draco::EncoderBuffer::",
+                                                                "draco::DecodeSymbols", "draco::EncodeSymbols")):
+                continue
+            tg = F.targets(n)
+            if len(tg) != 1 or tg[0].key == fn.key:
+                continue
+            inner_loops = set()
+            for h_, body_, l_ in tg[0].loops():
+                inner_loops |= body_
+            toks = {token_of(n2) for n2, b2, rk2, ev2 in tg[0].calls() if b2 in inner_loops and token_of(n2)}
+            for tok in toks:
+                sites.append((tok, b))
         for tok, b in sites:
             atoms = set()
             for cb in fn.blocks.values():
